@@ -30,6 +30,8 @@ pub struct GenCfg {
     pub plain_spelling: bool,
     /// allow degenerate arguments ("", root as any argument, long '..' chains)
     pub wild: bool,
+    /// generate write/append handles that stay open across steps
+    pub handles: bool,
 }
 
 pub const NAMES3: &[&str] = &["a", "b", "c"];
@@ -222,6 +224,15 @@ pub fn resolve(m: &Model, cfg: &GenCfg, s: &OpSpec, excluded: &mut u64) -> Op {
         let fl = (0..cs.len()).map(|i| (s.n >> (8 + i)) & 1 == 1).collect();
         (cs, fl)
     };
+    if cfg.handles && s.k >= 192 {
+        let slot = (s.n % 4) as u8;
+        return match s.k % 8 {
+            0 | 1 => Op::HOpen(slot, s.n & 16 != 0, a),
+            2 | 3 | 4 => Op::HWrite(slot, s.d.clone()),
+            5 => Op::HFlush(slot),
+            _ => Op::HDrop(slot),
+        };
+    }
     // weighted table
     match s.k % 64 {
         0 | 1 | 2 => Op::Mkfile(a),
